@@ -321,7 +321,7 @@ func checkC06(c *Check) {
 			guard := ""
 			var encl *ast.FuncLit
 			ast.Inspect(r.FI.Decl.Body, func(x ast.Node) bool {
-				if l, ok := x.(*ast.FuncLit); ok && posIn(l.Body, call.Pos()) && l != fl {
+				if l, ok := x.(*ast.FuncLit); ok && within(l.Body, call) && l != fl {
 					encl = l // innermost enclosing literal that is not the Do argument itself
 				}
 				return true
@@ -584,7 +584,7 @@ func checkC06(c *Check) {
 		var rcptReplay []Pt
 		for _, l := range elemLoops(info, r.FI.Decl.Body, func(e ast.Expr) bool { return isField(info, e, "checkRunner", "checkedRcpts") }) {
 			for _, rp := range replays {
-				if n := rp.Node(); n != nil && posIn(l.Body, n.Pos()) && l.Whole {
+				if n := rp.Node(); n != nil && within(l.Body, n) && l.Whole {
 					rcptReplay = append(rcptReplay, r.F.LoopDone(l)...)
 				}
 			}
